@@ -468,8 +468,8 @@ def feature_tag(case):
     g = case["g"]
     has_str = any(("obj" not in p["values"] and p["values"]["dtype"] == "str") or
                   ("obj" in p["values"] and any(e["dtype"] == "str" for e in p["values"]["obj"]))
-                  for lst in (g["node_props"], g["edge_props"]) for _, p in lst)
-    has_vlen = any("obj" in p["values"] for lst in (g["node_props"], g["edge_props"]) for _, p in lst)
+                  for lst in (g["node_props"] or [], g["edge_props"] or []) for _, p in lst)
+    has_vlen = any("obj" in p["values"] for lst in (g["node_props"] or [], g["edge_props"] or []) for _, p in lst)
     t = [f"v{enc['fmt']}", enc["compress"], enc.get("store", "mem")]
     if has_str:
         t.append("str-" + enc["strings"])
@@ -541,7 +541,7 @@ def run(ck: common.Check):
         if ck.quick and c["origin"].startswith("exh") and i % 3:
             continue
         # "variable length arrays cannot be of dtype string" (PropMetadata): an independent writer has no such property
-        g2 = {**c["g"], **{key: [[nm, p] for nm, p in c["g"][key]
+        g2 = {**c["g"], **{key: [[nm, p] for nm, p in (c["g"][key] or [])
                                  if not ("obj" in p["values"] and any(e["dtype"] == "str" for e in p["values"]["obj"]))]
                            for key in ("node_props", "edge_props")}}
         for _ in range(k):
@@ -553,7 +553,7 @@ def run(ck: common.Check):
     pool = [c for c in base if c["origin"] in ("random", "special-names", "special-md") or c["origin"].startswith("exh-vlen")]
     for i, defect in enumerate(DEFECTS * (6 if ck.quick else 40)):
         c = pool[(i * 7919) % len(pool)]
-        g2 = {**c["g"], **{key: [[nm, p] for nm, p in c["g"][key]
+        g2 = {**c["g"], **{key: [[nm, p] for nm, p in (c["g"][key] or [])
                                  if not ("obj" in p["values"] and any(e["dtype"] == "str" for e in p["values"]["obj"]))]
                            for key in ("node_props", "edge_props")}}
         enc = draw_encoding(ck.rng, g2)
